@@ -355,3 +355,23 @@ _add(
          "internal history sizes, outputs from a cleared state - from one constructed directly with that configuration.",
     technique="runtime monitoring: relational monitor, setter-built object vs constructor-built twin with per-assignment getter snapshots",
 )
+
+_add(
+    "C15",
+    rule="random sequences of 20-80 operations over {register_cell, del_cell, add_monitor (pass-through probes on "
+         "neuron.spike / connection.synspike / neuron.voltage, unique or pooled), del_monitor, trainer.train/eval, "
+         "layer.train/eval, layer step, trainer step, trainer.update, clear, drop-last-reference + gc.collect, listing "
+         "check} on one or two trainers of any shipped kind (STDP, triplet, MSTDP, MSTDPET, kernel, delay-adjusted, linear "
+         "homeostasis) over a Biclique layer whose four cells share connections and neurons and two Serial layers with "
+         "identical component names; after every layer step every registered slot's monitor is checked for exactly the "
+         "expected number of folds (1 iff trainer and that cell's layer are training, else 0) and probe monitors for "
+         "holding the current attribute of their own layer. One evaluation = one operation; non-trivial = everything but "
+         "bare mode switches; distinct = (operation, trainer kind, layer, registration counts, sharing, modes).",
+    required=["layer_steps", "slot_observations_checked", "probe_values_checked", "trainer_steps", "listing_checks"],
+    floor={"quick": 100, "thorough": 300},
+    text="Held on every operation sequence explored (apart from listed findings): fold counts per registered monitor "
+         "slot follow an explicit registration / mode state machine after every layer step, probe monitors hold the "
+         "current value of their own cell's attribute, operations on one cell or trainer never change what another "
+         "records, trainer calls on registered, observed cells do not raise, and the listings equal the registered set.",
+    technique="runtime monitoring: registration/mode state-machine monitor with per-reducer fold counters over random lifecycle sequences on real trainers and layers",
+)
